@@ -18,7 +18,8 @@ def resolved_dest(cfg: Cfg, dst_is_dir):
 
 class SysCase:
     def __init__(self, cfg: Cfg, data, faults=(), extra_sm=0, dst_is_dir=False, dst_exists=False, vfs="native",
-                 reject_round=None, max_rounds=250, tag="sys"):
+                 reject_round=None, max_rounds=250, tag="sys", cancel=None):
+        self.cancel = cancel        # (who: "src" | "dst", after how many scheduler rounds) - a user's cancel request
         self.cfg, self.data, self.faults, self.extra_sm = cfg, data, list(faults), extra_sm
         self.dst_is_dir, self.dst_exists, self.vfs, self.reject_round, self.max_rounds, self.tag = \
             dst_is_dir, dst_exists, vfs, reject_round, max_rounds, tag
@@ -31,7 +32,8 @@ class SysCase:
                 "max_packet": c.max_packet, "limits": (c.ack_limit, c.nak_limit, c.check_limit),
                 "size": None if self.data is None else len(self.data), "metadata_only": c.metadata_only,
                 "faults": [(f.direction, f.index, f.kind, f.arg) for f in self.faults], "extra_sm": self.extra_sm,
-                "dst_is_dir": self.dst_is_dir, "dst_exists": self.dst_exists, "vfs": self.vfs, "reject_round": self.reject_round}
+                "dst_is_dir": self.dst_is_dir, "dst_exists": self.dst_exists, "vfs": self.vfs, "reject_round": self.reject_round,
+                "cancel": self.cancel}
 
     def _c01_hook(self, w):
         cfg = self.cfg
@@ -80,6 +82,18 @@ class SysCase:
                 while r.round < self.reject_round and not r.quiescent():
                     r.step_round()
                 w.dst.set_reject(True)
+            if self.cancel is not None:
+                who, at = self.cancel
+                while r.round < at and not r.quiescent():
+                    r.step_round()
+                side = w.src if who == "src" else w.dst
+                t = side.h.transaction_id
+                if t is not None:
+                    side.cancel(t.source_id.value, t.seq_num.value)
+                    for hk in r.hooks:
+                        hk(side, r)
+                    r._note_done(side)
+                    r._drain(side)
             self.quiescent = r.run()
             self.dest_bytes = dest_file_bytes(w, resolved_dest(cfg, self.dst_is_dir))
             w.dst.snapshot_file(list(resolved_dest(cfg, self.dst_is_dir)))
@@ -238,8 +252,18 @@ def c01_cases(tier, rng):
         kinds = ("drop", "dup", "delay", "flip", "flip")
         faults = campaign.rand_faults(rng, nf, kinds, span=14)
         reject = rng.randint(0, 5) if rng.random() < 0.15 else None
+        # a user's cancel request at either entity, at any moment: no cancelled transfer may end as a reported success
+        cancel = (rng.choice(["src", "src", "dst"]), rng.randint(0, 8)) if rng.random() < 0.25 else None
         yield SysCase(cfg, bytes(rng.getrandbits(8) for _ in range(size)), faults, extra_sm=rng.choice([0, 0, 1]),
-                      reject_round=reject, max_rounds=200, tag="c01")
+                      reject_round=reject, max_rounds=200, tag="c01", cancel=cancel)
+    # the sender cancels while the Metadata PDU (and possibly more) is lost: the EOF (cancel) is the first PDU to arrive
+    for mode in (0, 0, 1):
+        for at in (1, 2, 3):
+            for nlost in (1, 2, 3):
+                cfg = campaign.rand_cfg(rng, mode=mode, req_mode=None)
+                data = bytes(rng.getrandbits(8) for _ in range(rng.choice([0, 5, 9, 13])))
+                yield SysCase(cfg, data, [Fault("s2d", i, "drop") for i in range(nlost)], max_rounds=200, tag="c01",
+                              cancel=("src", at))
 
 
 def fault_space(max_index, kinds=("drop", "dup", "delay")):
@@ -535,6 +559,8 @@ def run_c16_case(cfg, data, faults, extra_sm):
 
 # ------------------------------------------------------------------ System.v versus the Python scheduler + real handlers
 def system_model_ops(case: SysCase):
+    if getattr(case, "cancel", None) is not None:
+        return None
     """Int coding of a finished SysCase for Run.run_system, or None when the case uses something System.v does not model
     (extra empty calls, bit flips, write rejection, prepared destination, metadata-only)."""
     cfg = case.cfg
